@@ -618,7 +618,7 @@ example :
 
 /-! ## 6. the joined side: keys and routes of established hops never change
 
-No side condition is left: since fix f3c2d31 the relay branch of on_created refuses to pair when the outgoing circuit
+No side condition is left: since fix 172d874 the relay branch of on_created refuses to pair when the outgoing circuit
 id it reserved is meanwhile in use at the node (that id travels in a plaintext CREATE, so the next hop or the network
 could — and on the unrepaired tree did — make it collide on purpose; see `pairing_under_used_id_refused`).
 The events are the eleven of `Ev`; explicit removals (destroy from the neighbour, inactivity sweep, unload) are not
